@@ -91,6 +91,10 @@ def parser_config(name):
         return ParserConfig(fail_on_converter_warnings=True)
     if name == "factory":
         return ParserConfig(class_factory=faulty_class_factory)
+    if name == "xinclude":
+        return ParserConfig(process_xinclude=True)
+    if name == "loaddtd":
+        return ParserConfig(load_dtd=True)
     raise KeyError(name)
 
 
